@@ -401,7 +401,14 @@ func c13(c *ctx) {
 		for _, n := range names {
 			al, known := table[n]
 			if !known {
-				r.Bad("R4/cache-field/"+n, c.p.Pos(cacheT.Obj().Pos()), "the FSM cache has a new field "+n+" with no writer table: decide who may fill it (ResetCaches must clear it, C07.R3)")
+				// a cache added later concerns this property only if it can hold validator / committee data; whether it is
+				// cleared on roll-back is C07.R3's question, not this rule's
+				ft := types.TypeString(c.p.Field("fsm", "cache", n).Type(), shortQual)
+				if strings.Contains(ft, "Validator") || strings.Contains(ft, "Committee") {
+					r.Bad("R4/cache-field/"+n, c.p.Pos(cacheT.Obj().Pos()), "the FSM cache has a new field "+n+" of type "+ft+" that can hold validator or committee data and has no writer table: decide who may fill it, a historical snapshot must not inherit live records")
+				} else {
+					r.OK("R4/cache-field/"+n, c.p.Pos(cacheT.Obj().Pos()), "a cache of "+ft+": holds no validator or committee data (its roll-back is C07.R3's subject)")
+				}
 				continue
 			}
 			ws := c.whoWrites("R4", c.p.Field("fsm", "cache", n), "cache."+n, al, true)
